@@ -177,11 +177,13 @@ def enumerate_outcomes(run) -> List[Any]:
 
 class Interp:
     def __init__(self, program: Program, oracle: Oracle, stubs: Optional[Dict[str, Any]] = None, max_steps: int = 200000,
-                 ext_stubs: Optional[Dict[str, Any]] = None) -> None:
+                 ext_stubs: Optional[Dict[str, Any]] = None, enum_objects: bool = False) -> None:
         self.p = program
         self.oracle = oracle
         self.stubs = stubs or {}        # fid -> callable(interp, args, kwargs, self_obj) -> value
         self.ext_stubs = ext_stubs or {}   # external dotted name -> callable(args, kwargs) -> value
+        self.enum_objects = enum_objects   # members of in-repo Enum classes are objects with .name / .value (default: their values)
+        self._enum_members: Dict[Tuple[int, str], AObj] = {}
         self.steps = 0
         self.max_steps = max_steps
         self.reads: List[Tuple[str, Any]] = []
@@ -245,6 +247,11 @@ class Interp:
         for c in cl:
             if c is TOP:
                 if self.oracle.choose():
+                    return True
+                continue
+            if isinstance(c, AExt) and c.recv is None and c.name.split('.')[-1][:1].isupper():
+                # a class of an external module (enum.Enum, pathlib.Path)
+                if c.name.split('.')[-1] in mine:
                     return True
                 continue
             if not isinstance(c, AClass):
@@ -339,6 +346,11 @@ class Interp:
             anc = self.class_ancestors(ref)
             if 'BaseException' in anc:
                 return AObj(ref, {'args': tuple(args)}, tag=f'exc:{ref.name}')
+            if self._is_enum(ref):
+                for m_ in self.enum_members(ref):
+                    if args and (m_ is args[0] or (not isinstance(args[0], AObj) and m_.attrs['value'] == args[0])):
+                        return m_
+                raise ARaise(f'ValueError ({args[0]!r} is not a valid {ref.name})')
             obj = AObj(ref, {})
             init = self.p.lookup_method(ref, '__init__')
             if init is not None:
@@ -402,6 +414,22 @@ class Interp:
             return list(range(*args))
         return TOP
 
+    def _is_enum(self, ci) -> bool:
+        return self.enum_objects and isinstance(ci, ClassInfo) and any(b.split('.')[-1] in ('Enum', 'IntEnum', 'StrEnum', 'Flag')
+                                                                       for b in self.p.ext_bases(ci))
+
+    def enum_members(self, ci: ClassInfo) -> List[AObj]:
+        out = []
+        for name, (ann, default) in ci.fields.items():
+            if default is None or name.startswith('_'):
+                continue
+            key = (id(ci), name)
+            if key not in self._enum_members:
+                val = self.eval(default, {'__module__': ci.module, '__unit__': None, '__closure__': None})
+                self._enum_members[key] = AObj(ci, {'name': name, 'value': val, '_value_': val}, tag=f'{ci.name}.{name}')
+            out.append(self._enum_members[key])
+        return out
+
     def _to_list(self, v) -> list:
         if v is TOP:
             raise AnalysisError('abstract interpretation: iteration over an unknown collection')
@@ -411,6 +439,8 @@ class Interp:
             return list(v.items())
         if isinstance(v, dict):
             return list(v.keys())
+        if isinstance(v, AClass) and self._is_enum(v.ref):
+            return list(self.enum_members(v.ref))
         if isinstance(v, AObj) and 'data' in v.attrs:
             return list(v.attrs['data'].keys())
         if isinstance(v, AObj) and 'nodes' in v.attrs and isinstance(v.attrs['nodes'], (dict, list, tuple, set)):
@@ -756,18 +786,33 @@ class Interp:
         if isinstance(st, ast.With):
             # contextlib.suppress(...): exceptions of the listed classes end the block silently
             names = []
+            managers: list = []
             for item in st.items:
                 ce = item.context_expr
                 if isinstance(ce, ast.Call) and (dotted(ce.func) or '').split('.')[-1] == 'suppress':
                     names = [(dotted(a) or '').split('.')[-1] for a in ce.args]
                 else:
-                    raise AnalysisError(f'abstract interpretation: unsupported with-item {unparse(ce)}')
+                    cm = self.eval(ce, env)
+                    if not (isinstance(cm, AObj) and '__enter__' in cm.attrs and '__exit__' in cm.attrs):
+                        raise AnalysisError(f'abstract interpretation: unsupported with-item {unparse(ce)}')
+                    managers.append(cm)
+                    entered = self.call(cm.attrs['__enter__'], [], {}, ce)
+                    if item.optional_vars is not None:
+                        self.assign(item.optional_vars, entered, env)
             try:
                 self.exec_block(st.body, env)
             except ARaise as ex:
+                for cm in reversed(managers):
+                    self.call(cm.attrs['__exit__'], [ex.obj if ex.obj is not None else ex.what, None, None], {}, None)
                 if any(n in ex.what for n in names):
                     return
                 raise
+            except (_Return, _Break, _Continue):
+                for cm in reversed(managers):
+                    self.call(cm.attrs['__exit__'], [None, None, None], {}, None)
+                raise
+            for cm in reversed(managers):
+                self.call(cm.attrs['__exit__'], [None, None, None], {}, None)
             return
         if isinstance(st, ast.Try):
             self._exec_try(st, env)
@@ -854,6 +899,8 @@ class Interp:
                 return e[name]
             e = e.get('__closure__')
         mod = env['__module__']
+        if name == '__name__' and mod is not None:
+            return mod.name
         res = self.p.resolve_global(mod, name)
         if res[0] == 'class':
             return AClass(res[1])
@@ -938,6 +985,10 @@ class Interp:
                     return AExt(f'{c[1]}.{attr}', recv=None)
             return TOP
         if isinstance(obj, AClass):
+            if self._is_enum(obj.ref):
+                for m_ in self.enum_members(obj.ref):
+                    if m_.attrs['name'] == attr:
+                        return m_
             if isinstance(obj.ref, ClassInfo):
                 f = self.p.lookup_field(obj.ref, attr)
                 if f is not None and f[2] is not None:
@@ -1088,10 +1139,25 @@ class Interp:
             return dict(pairs)
         if isinstance(e, ast.Subscript):
             cont = self.eval(e.value, env)
+            if isinstance(e.slice, ast.Slice):
+                lo, hi, step = [self.eval(x, env) if x is not None else None for x in (e.slice.lower, e.slice.upper, e.slice.step)]
+                if cont is TOP or any(x is TOP for x in (lo, hi, step)):
+                    return TOP
+                if isinstance(cont, (list, tuple, str)) and all(x is None or (isinstance(x, int) and not isinstance(x, bool)) for x in (lo, hi, step)):
+                    return cont[slice(lo, hi, step)]
+                raise AnalysisError(f'abstract interpretation: unsupported slice {unparse(e)}')
             key = self.eval(e.slice, env)
             if cont is TOP:
                 return TOP
             if isinstance(cont, (list, tuple)):
+                if not isinstance(key, int) or isinstance(key, bool):
+                    raise AnalysisError(f'abstract interpretation: sequence index {key!r} ({unparse(e)})')
+                if not -len(cont) <= key < len(cont):
+                    raise ARaise('IndexError')
+                return cont[key]
+            if isinstance(cont, str) and isinstance(key, int) and not isinstance(key, bool):
+                if not -len(cont) <= key < len(cont):
+                    raise ARaise('IndexError')
                 return cont[key]
             d = self._dict_of(cont)
             if key not in d:
@@ -1114,6 +1180,8 @@ class Interp:
             return ''.join(parts)
         if isinstance(e, ast.Await):
             return self.eval(e.value, env)
+        if isinstance(e, ast.BinOp) and isinstance(e.op, ast.Div) and 'operator.truediv' in self.ext_stubs:
+            return self.ext_stubs['operator.truediv']([self.eval(e.left, env), self.eval(e.right, env)], {})
         if isinstance(e, ast.BinOp) and isinstance(e.op, (ast.Add, ast.Sub, ast.Mod)):
             a, b = self.eval(e.left, env), self.eval(e.right, env)
             if isinstance(e.op, ast.Add) and ((isinstance(a, str) and isinstance(b, str)) or
